@@ -124,13 +124,13 @@ Print Assumptions C19_legacy_wrong_passphrase_refuted.
 (* Loads and exports, however many and with whatever passphrases (right, wrong, empty, all-zero, long), leave
    the file exactly as it is: so the passphrases that open it, and the key, are the same afterwards.  No
    hypothesis on the cryptography. *)
-Theorem C19_readonly_history_full : forall (c : crypto) (ops : list hop) (f : file c),
+Theorem C19_readonly_history_full : forall (c : crypto) (ops : list (hop c)) (f : file c),
   Forall hop_reads ops ->
   Forall (fun fr => fst fr = f) (hrun c f ops) /\ hfile c f ops = f.
 Proof. exact readonly_history_keeps_file. Qed.
 Print Assumptions C19_readonly_history_full.
 
-Theorem C19_readonly_history_same_answers_full : forall (c : crypto) (ops : list hop) (f : file c) (p : bytes),
+Theorem C19_readonly_history_same_answers_full : forall (c : crypto) (ops : list (hop c)) (f : file c) (p : bytes),
   Forall hop_reads ops ->
   load c (hfile c f ops) p = load c f p /\ export c (hfile c f ops) p = export c f p.
 Proof. exact readonly_history_same_answers. Qed.
@@ -138,19 +138,39 @@ Print Assumptions C19_readonly_history_same_answers_full.
 
 (* An operation that reports an error (import of bytes that are no key, create on a path that holds a file)
    has not touched the file. *)
-Theorem C19_failed_step_keeps_file_full : forall (c : crypto) (f : file c) (op : hop) (e : err),
+Theorem C19_failed_step_keeps_file_full : forall (c : crypto) (f : file c) (op : hop c) (e : err),
   snd (hstep c f op) = RDone (Err e) -> fst (hstep c f op) = f.
 Proof. exact failed_step_keeps_file. Qed.
 Print Assumptions C19_failed_step_keeps_file_full.
 
 (* After EVERY step of ANY history the file opens with exactly the passphrase it was last sealed with, and
-   to the key last sealed in it.  (hop_wf: the salts the code draws are non-empty, its nonces have 12 bytes,
-   the key pair Create draws is a matching one.) *)
+   to the key last sealed in it — and with NO passphrase after a fault that killed the file (HDamage: deleted,
+   no longer parsing, ciphertext bytes no key opens), until the next successful import / create.
+   (hop_wf: the salts the code draws are non-empty, its nonces have 12 bytes, the key pair Create draws is a
+   matching one, a fault leaves a dead file.) *)
 Theorem C19_history_keeps_seal_full : forall (c : crypto), ideal c ->
-  forall (ops : list hop) (st : sealst c),
+  forall (ops : list (hop c)) (st : sealst c),
   Forall hop_wf ops -> seal_ok c st -> Forall (seal_ok c) (seal_trace c st ops).
 Proof. exact history_keeps_seal. Qed.
 Print Assumptions C19_history_keeps_seal_full.
+
+(* Faults.  WHATEVER happened on the path before — creates, imports (= key rotations, under the same or another
+   passphrase), loads, exports, earlier faults — once the key file is deleted, cut short / emptied / otherwise
+   no longer parsing, or holds ciphertext bytes that no key opens, EVERY later load and export, with ANY
+   passphrase (those that opened earlier contents of the path included), reports an error and leaves the file
+   as it is: a corrupted or truncated key file never yields a usable signer, and nothing rotated away comes
+   back.  No hypothesis on the cryptography. *)
+Theorem C19_damaged_file_never_opens_full : forall (c : crypto) (before after : list (hop c)) (f bad : file c),
+  dead_file c bad -> Forall hop_reads after ->
+  Forall (fun fr => fst fr = bad /\ exists e, snd fr = RSigner (Err e) \/ snd fr = RBytes (Err e))
+         (hrun c (hfile c f (before ++ [HDamage bad])) after).
+Proof. exact damaged_file_never_opens. Qed.
+Print Assumptions C19_damaged_file_never_opens_full.
+
+Theorem C19_dead_file_full : forall (c : crypto) (f : file c) (p : bytes), dead_file c f ->
+  (exists e, load c f p = Err e) /\ (exists e, export c f p = Err e).
+Proof. exact dead_file_never_opens. Qed.
+Print Assumptions C19_dead_file_full.
 
 (* where histories start: a created file opens with exactly its passphrase; a legacy salt-less file with
    exactly the passphrases deriving its raw key (see C19_legacy_wrong_passphrase_refuted for what that set is) *)
@@ -249,7 +269,7 @@ Proof. vm_compute. repeat split; try reflexivity. discriminate. Qed.
    the same length, exported, re-imported under a new passphrase, loaded with the old and the new one; a
    create on the occupied path and an import of 63 bytes fail and change nothing *)
 Definition ex_zero5 : bytes := repeat 0%N 5.
-Definition ex_hist : list hop :=
+Definition ex_hist : list (hop sym) :=
   [HLoad ex_legacy_pass; HLoad ex_zero5; HExport ex_legacy_pass; HCreate ex_signer [7%N] ex_salt ex_nonce;
    HImport (repeat 1%N 63) [7%N] ex_salt ex_nonce;
    HImport (s_priv ex_signer) [7%N] ex_salt ex_nonce; HLoad ex_legacy_pass; HLoad [7%N]].
@@ -265,6 +285,45 @@ Proof.
   split; [|vm_compute; repeat split; reflexivity].
   repeat constructor; try discriminate. all: try reflexivity.
 Qed.
+
+(* a key rotation followed by a fault: key A created under [7], key B imported over it under [8]; the file is
+   then cut short (no longer parses): neither the current nor the rotated-away passphrase opens anything, a
+   create on the occupied path is refused; after a deletion a create works again *)
+Definition ex_seed_b : bytes := map N.of_nat (seq 50 32).
+Definition ex_signer_b : signer := new_signer sym ex_seed_b.
+Definition ex_rotate_damage : list (hop sym) :=
+  [HCreate ex_signer [7%N] ex_salt ex_nonce; HLoad [7%N];
+   HImport (s_priv ex_signer_b) [8%N] ex_salt ex_nonce; HLoad [8%N]; HLoad [7%N];
+   HDamage FBadJson; HLoad [8%N]; HLoad [7%N]; HExport [7%N]; HCreate ex_signer [7%N] ex_salt ex_nonce;
+   HDamage FAbsent; HLoad [7%N]; HCreate ex_signer [9%N] ex_salt ex_nonce; HLoad [9%N]].
+Example ex_rotation_then_damage :
+  Forall hop_wf ex_rotate_damage /\
+  map snd (hrun sym FAbsent ex_rotate_damage) =
+    [RDone (Ok tt); RSigner (Ok ex_signer);
+     RDone (Ok tt); RSigner (Ok ex_signer_b); RSigner (Err EDecrypt);
+     RDone (Ok tt); RSigner (Err EJson); RSigner (Err EJson); RBytes (Err EJson); RDone (Err EExists);
+     RDone (Ok tt); RSigner (Err EIo); RDone (Ok tt); RSigner (Ok ex_signer)].
+Proof.
+  split; [|vm_compute; reflexivity].
+  repeat constructor; try discriminate.
+Qed.
+
+(* passphrases are byte strings, taken as they are: a trailing line feed / carriage return is part of the
+   passphrase on every path (create, import, load, export) *)
+Definition ex_pw : bytes := [112; 119]%N.
+Definition ex_pw_lf : bytes := [112; 119; 10]%N.
+Definition ex_pw_crlf : bytes := [112; 119; 13; 10]%N.
+Example ex_trailing_linebreak :
+  load sym (ex_file ex_pw_lf) ex_pw_lf = Ok ex_signer /\
+  load sym (ex_file ex_pw_lf) ex_pw = Err EDecrypt /\
+  load sym (ex_file ex_pw) ex_pw_lf = Err EDecrypt /\
+  load sym (ex_file ex_pw) ex_pw_crlf = Err EDecrypt /\
+  export sym (ex_file ex_pw) ex_pw_lf = Err EDecrypt /\
+  (match import sym (s_priv ex_signer) ex_pw_crlf ex_salt ex_nonce with
+   | Ok f2 => (load sym f2 ex_pw_crlf, load sym f2 ex_pw, export sym f2 ex_pw_crlf)
+   | _ => (Err EOther, Err EOther, Err EOther)
+   end) = (Ok ex_signer, Err EDecrypt, Ok (s_priv ex_signer)).
+Proof. vm_compute. repeat split; reflexivity. Qed.
 
 (* a signing session on one buffer: sign, rewrite two bytes in place, sign again, sign a prefix, sign again *)
 Definition ex_session : list sop := [SNew [1; 2; 3; 4]%N; SPatch 1 [9; 9]%N; SResign; SPrefix 2; SFresh [5%N]; SPatch 3 [7; 7; 7]%N].
